@@ -272,27 +272,45 @@ def helper_params(fn, call):
     return dict(zip(params, args))
 
 
-def straight_line_value(fn, call, collapse=True):
-    """the expression `helper(args)` stands for when the helper body is `v1 = e1; ..; return e` (else None)"""
+def straight_line_value(fn, call, collapse=True, caller_locals=()):
+    """the expression `helper(args)` stands for when the helper body is `v1 = e1; ..; return e` (else None).
+    A name the helper reads from ITS enclosing scope (a module constant, ...) must not be a local of the caller,
+    where the substituted text would mean something else."""
     body = tail_form(canon_fn(fn).body, True, collapse=collapse)
     env = helper_params(fn, call)
+    bound = set(env)
+    free = set()
     for s in body[:-1]:
         if not (isinstance(s, ast.Assign) and len(s.targets) == 1 and isinstance(s.targets[0], ast.Name)
                 and is_pure_expr(s.value)):
             return None
+        free |= {n.id for n in ast.walk(s.value) if isinstance(n, ast.Name)} - bound
         env[s.targets[0].id] = subst(s.value, env)
+        bound.add(s.targets[0].id)
     if not body or not isinstance(body[-1], ast.Return) or body[-1].value is None or not is_pure_expr(body[-1].value):
         return None
+    free |= {n.id for n in ast.walk(body[-1].value) if isinstance(n, ast.Name)} - bound
+    if free & set(caller_locals):
+        raise TranslateError('helper %s reads %s from its own scope, which the caller rebinds'
+                             % (fn.name, sorted(free & set(caller_locals))))
     return subst(body[-1].value, env)
+
+
+def local_names(fn):
+    """parameters and every name the function binds"""
+    out = {a.arg for a in fn.args.args + fn.args.kwonlyargs + fn.args.posonlyargs}
+    out |= {n.id for n in ast.walk(fn) if isinstance(n, ast.Name) and isinstance(n.ctx, ast.Store)}
+    return out
 
 
 class Inliner(ast.NodeTransformer):
     """replace calls of private helpers (found by `lookup(call) -> FunctionDef | None`) whose body is a
     straight line by the value they stand for; nested helpers are inlined first (bounded depth)"""
 
-    def __init__(self, lookup, depth=0):
+    def __init__(self, lookup, depth=0, caller_locals=()):
         self.lookup = lookup
         self.depth = depth
+        self.caller_locals = set(caller_locals)   # names bound in the function the calls are inlined into
 
     def visit_Call(self, node):
         self.generic_visit(node)
@@ -301,8 +319,8 @@ class Inliner(ast.NodeTransformer):
             return node
         if self.depth > 4:
             raise TranslateError('helper nesting too deep / recursive: ' + fn.name)
-        inner = Inliner(self.lookup, self.depth + 1).visit(copy.deepcopy(fn))
-        v = straight_line_value(inner, node)
+        inner = Inliner(self.lookup, self.depth + 1, local_names(fn)).visit(copy.deepcopy(fn))
+        v = straight_line_value(inner, node, caller_locals=self.caller_locals - {'self', 'cls'})
         return node if v is None else v
 
 
